@@ -260,11 +260,6 @@ func (l *collectLogger) LogError(v ...interface{}) { l.add("error", v) }
 func (l *collectLogger) LogInfo(v ...interface{})  { l.add("info", v) }
 func (l *collectLogger) LogDebug(v ...interface{}) { l.add("debug", v) }
 
-type noopTask struct{}
-
-func (noopTask) Run(tid uint64) error { return nil }
-func (noopTask) HandleError(e error)  {}
-
 type evalEnv struct {
 	erp    *interpreter.ECALRuntimeProvider
 	logger *collectLogger
@@ -328,18 +323,30 @@ func (env *evalEnv) post(events []Event, posters int, concurrent bool, start <-c
 	stopKick := make(chan struct{})
 	if concurrent {
 		// Keep the pool ticking: a task queued between a worker's empty poll and its
-		// wait is only picked up at the next AddTask (known C09 behaviour). The
-		// verdict of this check never depends on time; this only keeps that defect
-		// from stalling it.
+		// wait is only picked up at the next AddTask (known C09 behaviour), and
+		// AddEventAndWait would then wait for ever. The generated sink program
+		// declares an empty sink for kind c13.tick; an event for it every
+		// millisecond is that next AddTask. No verdict depends on it or on time.
 		go func() {
 			tk := time.NewTicker(time.Millisecond)
 			defer tk.Stop()
+			var outstanding atomic.Int32
+			last := time.Now()
 			for {
 				select {
 				case <-stopKick:
 					return
 				case <-tk.C:
-					proc.ThreadPool().AddTask(noopTask{})
+					if outstanding.Load() > 0 && time.Since(last) < 20*time.Millisecond {
+						continue // at most one tick in the queue (unless it is the one which got stuck)
+					}
+					rm := proc.NewRootMonitor(nil, nil)
+					rm.SetFinishHandler(func(engine.Processor) { outstanding.Add(-1) })
+					outstanding.Add(1)
+					if m, _ := proc.AddEvent(engine.NewEvent("tick", []string{"c13", "tick"}, map[interface{}]interface{}{}), rm); m == nil {
+						outstanding.Add(-1)
+					}
+					last = time.Now()
 				}
 			}
 		}()
